@@ -1,5 +1,5 @@
 SPECIFICATION Spec
 CONSTANTS
   Files <- FilesT
-INVARIANTS RoundTripInv LayoutInv LengthInv TotalityInv TruncInv EmitFile
+INVARIANTS FrameRuleInv FrameRuleWitness RoundTripInv LayoutInv LengthInv TotalityInv TruncInv EmitFile
 CHECK_DEADLOCK FALSE
